@@ -19,7 +19,7 @@ RULE = ('case = 1..6 base stations above the floor, misalignment rotation 0..30 
         '(seed, flip class, noise) systems evaluated.')
 ASSUMPTIONS = ['noise-free exactness tolerance 1e-4 m / 1e-4 rad (measured worst values in the evidence)',
                'with noise only rigidity, properness and a 10-sigma bound on the mapped reference points are required']
-REQUIRED = ['mon.align_noise_free', 'mon.align_noisy', 'mon.align_mirror_cases', 'mon.rigidity_pairs', 'mon.scale_fixed_point',
+REQUIRED = ['mon.align_noise_free', 'mon.align_noisy', 'mon.align_mirror_cases', 'mon.rigidity_pairs', 'mon.scale_fixed_point', 'mon.scale_fixed_point_off_direction',
             'mon.scale_diagonals', 'mon.inputs_unchanged', 'mon.misalignment_25_to_30_deg', 'mon.scale_with_repeated_pose_objects']
 
 
@@ -173,6 +173,13 @@ def run(desc, ctx):
             ctx.count('mon.scale_fixed_point')
             out = LighthouseSystemScaler.scale_fixed_point(bs_in, cf_in, cf_w[k].translation, cf_in[k])
             check_scaled('fixed-point', out[0], out[1], out[2], s_true, 1e-9)
+            # the estimate of the fixed point need not lie in the direction of its true position (residual rotation of the
+            # system, measurement noise): the factor is the ratio of the distances
+            Rq = lhgen.rot_axis([rnd.gauss(0, 1) for _ in range(3)], rnd.choice((math.radians(1.0), rnd.uniform(0.0, math.radians(40.0)))))
+            off = Pose(cf_in[k].rot_matrix.copy(), Rq @ cf_in[k].translation)
+            out = LighthouseSystemScaler.scale_fixed_point(bs_in, cf_in, cf_w[k].translation, off)
+            ctx.count('mon.scale_fixed_point_off_direction')
+            check_scaled('fixed-point:estimate-off-the-true-direction', out[0], out[1], out[2], s_true, 1e-9)
             # the same Pose object several times in the list (a Crazyflie standing still while samples are recorded,
             # or the reference pose appended to the list it came from)
             alias = ([cf_in[k]] * rnd.randint(2, 4)) if rnd.random() < 0.5 else (list(cf_in) + [cf_in[k]])
